@@ -90,6 +90,17 @@ class Vec(list):
         return Vec(r) if isinstance(i, slice) else r
 
 
+class PyIter:
+    """iter(seq): a one-shot iterator that remembers its position (a second loop over it continues where the first one stopped)"""
+    def __init__(self, seq): self.seq = list(seq); self.pos = 0
+    def __iter__(self): return self
+    def __len__(self): return len(self.seq) - self.pos
+    def __next__(self):
+        if self.pos >= len(self.seq): raise StopIteration
+        self.pos += 1
+        return self.seq[self.pos - 1]
+
+
 class Obj:
     def __init__(self, cls=None, attrs=None, name='obj', default=None):
         self.cls = cls; self.attrs = dict(attrs or {}); self.name = name; self.default = default
@@ -105,8 +116,8 @@ class Obj:
 
 
 class FuncRef:
-    def __init__(self, mod, node, cls=None, bound=None):
-        self.mod = mod; self.node = node; self.cls = cls; self.bound = bound
+    def __init__(self, mod, node, cls=None, bound=None, closure=None):
+        self.mod = mod; self.node = node; self.cls = cls; self.bound = bound; self.closure = closure
 
     def __repr__(self): return f'<func {self.mod.name}.{self.node.name}>'
 
@@ -169,9 +180,18 @@ def concrete(v):
 
 
 class Frame:
-    def __init__(self, mod, fname):
+    def __init__(self, mod, fname, parent=None):
         self.mod = mod; self.fname = fname; self.vars = {}
         self.cls = None; self.self_obj = None
+        self.parent = parent          # defining frame of a nested function / lambda: free names are looked up there when the body runs (late binding)
+
+    def lookup(self, n):
+        f = self
+        while f is not None:
+            if n in f.vars:
+                return f
+            f = f.parent
+        return None
 
 
 class Interp:
@@ -184,10 +204,10 @@ class Interp:
         self.module_const_cache = {}
 
     # ------------------------------------------------------------ entry points
-    def call(self, mod, fnode, args=(), kwargs=None, self_obj=None, owner=None):
+    def call(self, mod, fnode, args=(), kwargs=None, self_obj=None, owner=None, closure=None):
         """Bind arguments as Python would and interpret the body. Returns the returned value (None if falls off)."""
         kwargs = dict(kwargs or {})
-        frame = Frame(mod, fnode.name)
+        frame = Frame(mod, fnode.name, parent=closure)
         frame.cls = owner; frame.self_obj = self_obj
         if owner is None and self_obj is not None and getattr(self_obj, 'cls', None) is not None:
             m0 = self.find_method(self_obj.cls, fnode.name)
@@ -225,11 +245,10 @@ class Interp:
                 frame.vars[p.arg] = self.eval(d, Frame(mod, fnode.name))
             else:
                 raise AnalysisError(f'{fnode.name}: missing kw-only argument {p.arg}')
-        if kwargs:
-            if a.kwarg is not None:
-                frame.vars[a.kwarg.arg] = kwargs
-            else:
-                raise AnalysisError(f'{fnode.name}: unexpected keyword arguments {sorted(kwargs)}')
+        if a.kwarg is not None:
+            frame.vars[a.kwarg.arg] = kwargs
+        elif kwargs:
+            raise AnalysisError(f'{fnode.name}: unexpected keyword arguments {sorted(kwargs)}')
         self.depth += 1
         if self.depth > self.max_depth:
             raise AnalysisError(f'inlining depth bound {self.max_depth} exceeded at {fnode.name}')
@@ -295,7 +314,9 @@ class Interp:
                 it = list(it.keys())
             if isinstance(it, Obj) and isinstance(it.attrs.get('__iter__'), (list, tuple)):
                 it = list(it.attrs['__iter__'])          # object whose class defines __iter__ over a stored sequence (a world iterates its layers)
-            if not isinstance(it, (list, tuple)):
+            if isinstance(it, set):
+                it = sorted(it, key=repr)
+            if not isinstance(it, (list, tuple, PyIter)):
                 raise AnalysisError(f'{fr.mod.where(st)}: for-loop over a non-constant iterable')
             if len(it) > self.max_unroll:
                 raise AnalysisError(f'{fr.mod.where(st)}: loop trip count {len(it)} over the unroll bound')
@@ -331,11 +352,31 @@ class Interp:
         if isinstance(st, ast.Assert):
             return
         if isinstance(st, ast.With):
-            self.exec_block(st.body, fr); return
+            # context managers that are modelled objects (files, pools) are bound to their `as` name and told when the block is left, on every way out
+            cms = []
+            for item in st.items:
+                try:
+                    v = self.eval(item.context_expr, fr)
+                except AnalysisError:
+                    if item.optional_vars is not None:
+                        raise
+                    v = None                      # an unmodelled manager nobody names (nogil, warnings.catch_warnings(), ...)
+                if isinstance(v, Obj) and callable(v.attrs.get('__enter__')):
+                    v = v.attrs['__enter__']() or v
+                if item.optional_vars is not None:
+                    self.assign(item.optional_vars, v, fr, st)
+                cms.append(v)
+            try:
+                self.exec_block(st.body, fr)
+            finally:
+                for v in reversed(cms):
+                    if isinstance(v, Obj) and callable(v.attrs.get('__exit__')):
+                        v.attrs['__exit__']()
+            return
         if isinstance(st, (ast.Import, ast.ImportFrom, ast.Global, ast.Nonlocal)):
             return
         if isinstance(st, ast.FunctionDef):
-            fr.vars[st.name] = FuncRef(fr.mod, st); return
+            fr.vars[st.name] = FuncRef(fr.mod, st, closure=fr); return
         if isinstance(st, ast.Delete):
             for t in st.targets:
                 if isinstance(t, ast.Subscript):
@@ -416,6 +457,11 @@ class Interp:
                 fr.vars[t.id] = v
             return
         if isinstance(t, (ast.Tuple, ast.List)):
+            if isinstance(v, Obj) and isinstance(v.attrs.get('__iter__'), (list, tuple)):
+                v = list(v.attrs['__iter__'])
+            if isinstance(v, (tuple, list)) and len(v) != len(t.elts) and not any(isinstance(x_, ast.Starred) for x_ in t.elts):
+                # what Python does: ValueError (too many / not enough values to unpack)
+                raise RaiseSignal(ast.copy_location(ast.Raise(exc=ast.Name(id='ValueError', ctx=ast.Load()), cause=None), st), f'ValueError: cannot unpack {len(v)} values into {len(t.elts)} targets')
             if not isinstance(v, (tuple, list)) or len(v) != len(t.elts):
                 raise AnalysisError(f'{fr.mod.where(st)}: cannot unpack {type(v).__name__} into {len(t.elts)} targets')
             for tt, vv in zip(t.elts, v):
@@ -513,6 +559,11 @@ class Interp:
             if isinstance(v, Ref):
                 return v.frame.vars[v.name]
             return v
+        if fr.parent is not None:
+            owner = fr.parent.lookup(n)
+            if owner is not None:
+                v = owner.vars[n]
+                return v.frame.vars[v.name] if isinstance(v, Ref) else v
         return self.global_name(fr.mod, n, e)
 
     def global_name(self, mod, n, e=None):
@@ -541,7 +592,8 @@ class Interp:
             if r[0] == 'external':
                 return self.external(r[1], r[2])
         if n in ('range', 'len', 'int', 'float', 'complex', 'abs', 'max', 'min', 'tuple', 'list', 'dict', 'bool',
-                 'isinstance', 'sum', 'enumerate', 'zip', 'print', 'str', 'round', 'type', 'pow', 'any', 'all', 'set'):
+                 'isinstance', 'sum', 'enumerate', 'zip', 'print', 'str', 'round', 'type', 'pow', 'any', 'all', 'set',
+                 'iter', 'next', 'sorted', 'reversed', 'map', 'filter'):
             return Builtin(n)
         if n in ('sin', 'cos', 'tan', 'exp', 'sqrt', 'cbrt', 'log', 'fabs', 'pi', 'M_PI', 'NAN', 'INFINITY', 'isnan',
                  'isinf', 'tgamma', 'floor', 'ceil', 'pow', 'creal', 'cimag', 'cabs', 'csqrt', 'cexp', 'fmin', 'fmax', 'NULL',
@@ -617,6 +669,26 @@ class Interp:
             return Builtin(base.name + '.' + a)
         if isinstance(base, str):
             return ('strmethod', base, a)
+        if isinstance(base, Vec):
+            if a == 'size': return len(base)
+            if a == 'shape': return (len(base),)
+            if a in ('flatten', 'ravel', 'copy', 'tolist'): return (lambda *a_, **k_: Vec(base))
+            if a in ('argmin', 'argmax', 'min', 'max'):
+                def pick(*a_, **k_):
+                    cs = [concrete(to_node(v)) for v in base]
+                    if any(c is None or isinstance(c, complex) for c in cs):
+                        raise AnalysisError(f'{fr.mod.where(e)}: .{a}() of an array with symbolic elements')
+                    best = (min if 'min' in a else max)(range(len(cs)), key=lambda i: (cs[i], -i if 'max' in a else i))
+                    return best if a.startswith('arg') else base[best]
+                return pick
+            if a == 'sum':
+                def total(*a_, **k_):
+                    out = 0
+                    for v in base: out = self.binop(ast.Add(), out, v)
+                    return out
+                return total
+        if isinstance(base, (list, tuple)) and a in ('index', 'count'):
+            return (lambda v, base=base, a=a: getattr(list(base), a)(v))
         raise AnalysisError(f'{fr.mod.where(e)}: attribute .{a} of {type(base).__name__}')
 
     def find_method(self, cls, name):
@@ -733,6 +805,10 @@ class Interp:
             return Vec([self.binop(op, a[i] if isinstance(a, Vec) else a, b[i] if isinstance(b, Vec) else b, e, fr) for i in range(n)])
         if isinstance(a, (tuple, list)) and isinstance(b, (tuple, list)) and isinstance(op, ast.Add):
             return type(a)(list(a) + list(b))
+        if isinstance(a, str) and isinstance(b, str) and isinstance(op, ast.Add):
+            return a + b
+        if isinstance(op, ast.Mult) and ((isinstance(a, (str, list, tuple)) and isinstance(b, int)) or (isinstance(b, (str, list, tuple)) and isinstance(a, int))):
+            return a * b
         if isinstance(a, str) and isinstance(op, (ast.Add, ast.Mod)):
             return a
         if isinstance(a, (int, Fraction)) and isinstance(b, (int, Fraction)):
@@ -853,8 +929,19 @@ class Interp:
         c = self.truth(self.eval(e.test, fr), e, fr)
         return self.eval(e.body if c else e.orelse, fr)
 
-    def e_Tuple(self, e, fr): return tuple(self.eval(x, fr) for x in e.elts)
-    def e_List(self, e, fr): return [self.eval(x, fr) for x in e.elts]
+    def _elts(self, elts, fr):
+        out = []
+        for x in elts:
+            if isinstance(x, ast.Starred):
+                v = self.eval(x.value, fr)
+                if isinstance(v, Obj) and isinstance(v.attrs.get('__iter__'), (list, tuple)): v = v.attrs['__iter__']
+                out.extend(list(v))
+            else:
+                out.append(self.eval(x, fr))
+        return out
+
+    def e_Tuple(self, e, fr): return tuple(self._elts(e.elts, fr))
+    def e_List(self, e, fr): return self._elts(e.elts, fr)
 
     def e_Dict(self, e, fr):
         d = {}
@@ -879,9 +966,16 @@ class Interp:
             if base.dims and len(base.dims) > 1 and isinstance(idx, int):
                 return base.sub(idx)
             return base.get(idx)
-        if isinstance(base, (tuple, list)):
-            return base[idx]
+        if isinstance(base, (tuple, list, str)):
+            try:
+                return base[idx]
+            except IndexError:
+                raise RaiseSignal(ast.copy_location(ast.Raise(exc=ast.Name(id='IndexError', ctx=ast.Load()), cause=None), e), f'IndexError: {ast.unparse(e)[:60]}')
+        if isinstance(base, Obj) and isinstance(base.attrs.get('__iter__'), (list, tuple)) and isinstance(idx, (int, slice)):
+            return base.attrs['__iter__'][idx]
         if isinstance(base, dict):
+            if idx not in base and self.hooks.get('keyerror_raises'):
+                raise RaiseSignal(ast.copy_location(ast.Raise(exc=ast.Name(id='KeyError', ctx=ast.Load()), cause=None), e), f'KeyError: {idx!r}')
             if idx not in base:
                 raise AnalysisError(f'{fr.mod.where(e)}: key {idx!r} not in dict literal')
             return base[idx]
@@ -908,7 +1002,11 @@ class Interp:
                     val = self.eval(v.value, fr)
                 except AnalysisError:
                     return '<fstring>'
-                if isinstance(val, (str, int)) and not isinstance(val, bool):
+                h = self.hooks.get('format')
+                if h is not None:
+                    spec = self.eval(v.format_spec, fr) if v.format_spec is not None else ''
+                    out += h(self, val, spec, v.conversion)
+                elif isinstance(val, (str, int)) and not isinstance(val, bool):
                     out += str(val)
                 elif isinstance(val, tuple) and all(isinstance(t, int) for t in val):
                     out += str(val)
@@ -921,18 +1019,46 @@ class Interp:
         dflt = [self.eval(d_, fr) for d_ in e.args.defaults]
         return ('lambda', e, fr, dflt)
 
+    def _iterable(self, it):
+        if isinstance(it, range): return list(it)
+        if isinstance(it, Obj) and isinstance(it.attrs.get('__iter__'), (list, tuple)): return list(it.attrs['__iter__'])
+        if isinstance(it, dict): return list(it)
+        return it
+
+    def _comprehend(self, e, fr, emit):
+        """generators left to right, each with its own conditions; the comprehension has its own scope that sees the enclosing frame"""
+        sub = Frame(fr.mod, fr.fname, parent=fr.parent); sub.vars = dict(fr.vars)
+        sub.cls = fr.cls; sub.self_obj = fr.self_obj
+
+        def level(k):
+            if k == len(e.generators):
+                emit(sub); return
+            g = e.generators[k]
+            for v in self._iterable(self.eval(g.iter, sub)):
+                self.assign(g.target, v, sub, e)
+                if all(self.truth(self.eval(c, sub), ast.copy_location(ast.If(test=c, body=[], orelse=[]), e), sub) for c in g.ifs):
+                    level(k + 1)
+        level(0)
+
     def e_ListComp(self, e, fr):
-        if len(e.generators) != 1:
-            raise AnalysisError('nested comprehension')
-        g = e.generators[0]
-        it = self.eval(g.iter, fr)
-        if isinstance(it, range): it = list(it)
         out = []
-        sub = Frame(fr.mod, fr.fname); sub.vars = dict(fr.vars)
-        for v in it:
-            self.assign(g.target, v, sub, e)
-            if all(self.truth(self.eval(c, sub), e, sub) for c in g.ifs):
-                out.append(self.eval(e.elt, sub))
+        self._comprehend(e, fr, lambda sub: out.append(self.eval(e.elt, sub)))
+        return out
+
+    def e_GeneratorExp(self, e, fr):
+        return self.e_ListComp(e, fr)            # consumed once by every use the package makes of them (tuple(...), sum(...), join(...), any/all)
+
+    def e_SetComp(self, e, fr):
+        return set(self.e_ListComp(e, fr))
+
+    def e_DictComp(self, e, fr):
+        out = {}
+
+        def emit(sub):
+            k = self.eval(e.key, sub)
+            c = concrete(k) if isinstance(k, Node) else None
+            out[c if c is not None else k] = self.eval(e.value, sub)
+        self._comprehend(e, fr, emit)
         return out
 
     # ------------------------------------------------------------ calls
@@ -947,7 +1073,10 @@ class Interp:
         kwargs = {}
         for k in e.keywords:
             if k.arg is None:
-                kwargs.update(self.eval(k.value, fr))
+                kv = self.eval(k.value, fr)
+                if not isinstance(kv, dict):
+                    raise RaiseSignal(ast.copy_location(ast.Raise(exc=ast.Name(id='TypeError', ctx=ast.Load()), cause=None), e), f'TypeError: argument after ** must be a mapping, not {type(kv).__name__}')
+                kwargs.update(kv)
             else:
                 kwargs[k.arg] = self.eval(k.value, fr)
         return self.apply(f, args, kwargs, e, fr)
@@ -965,7 +1094,7 @@ class Interp:
             return X.add(to_node(args[0]), X.mul(to_node(args[1]), X.I))
         if isinstance(f, FuncRef):
             self.trace_calls.append((fr.mod.where(e) if e is not None else '', f.node.name))
-            return self.call(f.mod, f.node, args, kwargs, self_obj=f.bound, owner=f.cls if f.bound is not None else None)
+            return self.call(f.mod, f.node, args, kwargs, self_obj=f.bound, owner=f.cls if f.bound is not None else None, closure=f.closure)
         if isinstance(f, Opaque):
             return Opaque(f.name + '()')
         if callable(f) and not isinstance(f, (FuncRef, Builtin)):
@@ -989,7 +1118,7 @@ class Interp:
             f[1].append(args[0]); return None
         if isinstance(f, tuple) and f and f[0] == 'lambda':
             lam, lfr = f[1], f[2]
-            sub = Frame(lfr.mod, '<lambda>'); sub.vars = dict(lfr.vars)
+            sub = Frame(lfr.mod, '<lambda>', parent=lfr.parent); sub.vars = dict(lfr.vars)
             dflt = f[3] if len(f) > 3 else []
             params = lam.args.args
             for p, v in zip(params[len(params) - len(dflt):], dflt): sub.vars[p.arg] = v
@@ -1007,6 +1136,12 @@ class Interp:
             if a == 'startswith': return s.startswith(args[0])
             if a == 'endswith': return s.endswith(args[0])
             if a == 'replace': return s.replace(args[0], args[1])
+            if a == 'join': return s.join(list(args[0]))
+            if a in ('rstrip', 'lstrip'): return getattr(s, a)(*args)
+            if a in ('isdigit', 'isalpha', 'isalnum', 'isspace'): return getattr(s, a)()
+            if a in ('rsplit', 'partition', 'rpartition', 'splitlines', 'find', 'rfind', 'count', 'index', 'zfill', 'ljust', 'rjust', 'center'):
+                return getattr(s, a)(*args)
+            if a == 'format': return s.format(*args, **kwargs)
         if isinstance(f, tuple) and f and f[0] == 'class':
             hc = self.hooks.get('construct')
             if hc is not None:
@@ -1143,6 +1278,28 @@ class Interp:
         def seq(v):
             # an object whose class defines __iter__ over a stored sequence iterates that sequence
             return list(v.attrs['__iter__']) if isinstance(v, Obj) and isinstance(v.attrs.get('__iter__'), (list, tuple)) else v
+        if nm == 'iter':
+            v = seq(args[0])
+            return v if isinstance(v, PyIter) else PyIter(self._iterable(v))
+        if nm == 'next':
+            try:
+                return next(args[0])
+            except StopIteration:
+                if len(args) > 1: return args[1]
+                raise RaiseSignal(ast.copy_location(ast.Raise(exc=ast.Name(id='StopIteration', ctx=ast.Load()), cause=None), e), 'StopIteration')
+        if nm in ('sorted', 'reversed'):
+            v = list(self._iterable(seq(args[0])))
+            if nm == 'reversed': return list(reversed(v))
+            keyf = kwargs.get('key')
+            def kf(x):
+                y = self.apply(keyf, [x], {}, e, fr) if keyf is not None else x
+                c = concrete(y) if isinstance(y, Node) else y
+                return c if c is not None else y
+            return sorted(v, key=kf, reverse=bool(kwargs.get('reverse', False)))
+        if nm == 'map':
+            return [self.apply(args[0], list(t) if len(args) > 2 else [t], {}, e, fr) for t in (zip(*[self._iterable(seq(a)) for a in args[1:]]) if len(args) > 2 else self._iterable(seq(args[1])))]
+        if nm == 'filter':
+            return [t for t in self._iterable(seq(args[1])) if self.truth(self.apply(args[0], [t], {}, e, fr) if args[0] is not None else t, e, fr)]
         if nm == 'enumerate':
             return list(enumerate(seq(args[0]), *args[1:]))
         if nm == 'zip':
